@@ -230,7 +230,13 @@ def step (oc : Bool) (stream : List Nat) (st0 : St) (e : Ev) : Step :=
 inductive End where
   /-- `None` after the stream end event -/
   | done
-  /-- `Some(Err(InvalidData))`: `parser.next_event()` failed -/
+  /-- `Some(Err(InvalidData))`: `parser.next_event()` failed.  The run stops
+  here, as both users of `Chunker` in xt do (`for doc in … { let doc = doc?; … }`
+  and the single `next()` of `input_matches`).  Calling `next()` again is not
+  modelled: libyaml answers every parse call after an error with an empty event,
+  `_ => {}` ignores it, and the `loop` never exits (observed on the real code:
+  `xtverif chunker-after-error <hex>` does not return) — there is no structural
+  recursion for it, which is the finding. -/
   | err
   /-- the event list ran out without a stream end or an error (not a trace a
   parser produces; kept so that the function is total without inventing one) -/
